@@ -201,6 +201,23 @@ def _upper_bound(prog, f, op, depth=0):
     return best
 
 
+def _src_local(f, op):
+    """the local an operand is a (chain of) plain copy of: follows `_a = copy/move _b` and `_a = _b as T` while _a has that single definition"""
+    if op[0] == "k" or op[1][1]:
+        return None
+    l = op[1][0]
+    for _ in range(12):
+        ds = [d for d in f.defs.get(l, []) if d[0] != "assign" or d[1] in f.live_blocks]
+        if len(ds) == 1 and ds[0][0] == "assign" and not ds[0][4]:
+            rv = ds[0][3]
+            src = rv[1] if rv[0] == "use" else (rv[2] if rv[0] == "cast" and len(rv) > 2 else None)
+            if src and src[0] in ("c", "m") and not src[1][1]:
+                l = src[1][0]
+                continue
+        break
+    return ("local", l)
+
+
 def _ident(f, op):
     """identity of an operand as a single origin (call result / parameter), or None when ambiguous"""
     if op[0] == "k":
@@ -428,6 +445,29 @@ def guard(name):
     return deco
 
 
+def _dominating_orders(f, site_bb):
+    """every `small <= big` fact (as operand pairs) established by a comparison whose arm dominates site_bb"""
+    out = []
+    for bi in sorted(f.live_blocks):
+        si = f.switch_info(bi)
+        if not si or "true" not in si["arms"] or si["op"][0] == "k":
+            continue
+        d = si.get("bool_def")
+        if not d or d[0] != "bin" or d[1] not in ("Gt", "Lt", "Ge", "Le"):
+            continue
+        for arm in ("true", "false"):
+            tgt = si["arms"][arm]
+            if not ([p for p in f.pred[tgt] if p in f.live_blocks] == [bi] and f.dominates(tgt, site_bb)):
+                continue
+            l, r = d[2], d[3]
+            holds = d[1] if arm == "true" else {"Gt": "Le", "Le": "Gt", "Lt": "Ge", "Ge": "Lt"}[d[1]]
+            if holds in ("Le", "Lt"):
+                out.append((l, r, bi))
+            else:
+                out.append((r, l, bi))
+    return out
+
+
 def check_guard(ctx, name):
     g = GUARDS.get(name)
     if g is None:
@@ -436,6 +476,39 @@ def check_guard(ctx, name):
         return g(ctx)
     except Exception as e:  # fail closed
         return False, "guard raised %r" % (e,)
+
+
+@guard("substring_bounds")
+def g_substring_bounds(ctx):
+    """`chars[start..end]` in Substring::compute: both `start <= end` and `end <= chars.len()` are established by comparisons whose
+    arm dominates the slice (resolve_char clamps each index into 0..=len but does not order them)"""
+    prog = ctx.prog
+    f = prog.inlined(prog.one_fn(r"^ast_grep_config::transform::transformation::Substring::<ast_grep_core::meta_var::MetaVariable>::compute$"))
+    sites = [c for c in f.calls if c.name == "index" and c.bb in f.live_blocks and len(c.args) == 2 and
+             any(o.kind == "agg" and str(o.ref[2][1].get("adt", "")).endswith("ops::range::Range") for o in f.trace_operand(c.args[1]))]
+    if not sites:
+        return False, "no slice-by-range site found in Substring::compute"
+    msgs = []
+    for c in sites:
+        agg = [o for o in f.trace_operand(c.args[1]) if o.kind == "agg"][0].ref
+        start, end = agg[2][2][0], agg[2][2][1]
+        a, b = _src_local(f, start), _src_local(f, end)
+        facts_ = _dominating_orders(f, c.bb)
+        ordered = a is not None and b is not None and a != b and any(_src_local(f, l) == a and _src_local(f, r) == b for l, r, _ in facts_)
+        vec = {(o.kind, o.ref if isinstance(o.ref, (int, str)) else id(o.ref)) for o in deep_roots(prog, f, c.args[0], TRANSPARENT)}
+        def is_len(op):
+            for o in f.trace_operand(op):
+                if o.kind == "call" and o.ref.name == "len" and o.ref.args:
+                    r = {(x.kind, x.ref if isinstance(x.ref, (int, str)) else id(x.ref)) for x in deep_roots(prog, f, o.ref.args[0], TRANSPARENT)}
+                    if r & vec:
+                        return True
+            return False
+        bounded = b is not None and any(_src_local(f, l) == b and is_len(r) for l, r, _ in facts_)
+        if not ordered:
+            msgs.append("no dominating comparison establishes start <= end before the slice: `substring` with startChar > endChar (e.g. 3 and 1) panics with 'slice index starts at 3 but ends at 1'")
+        # `end <= len` is additionally guaranteed by resolve_char's clamping (value level): a missing comparison is not reported
+        ctx.extra.setdefault("substring_bounds", {})["end<=len tested before the slice"] = bounded
+    return not msgs, "start <= end holds on every path to the slice" if not msgs else "; ".join(msgs)
 
 
 @guard("ids_from_get_order")
